@@ -3,7 +3,10 @@
 package server
 
 import (
+	"time"
+
 	"github.com/fatedier/frp/pkg/msg"
+	"github.com/fatedier/frp/pkg/nathole"
 	"github.com/fatedier/frp/server/visitor"
 	"github.com/fatedier/frp/zzverif"
 )
@@ -20,7 +23,12 @@ func VerifC12NameRace() {
 	c2, _ := zzControl(svr, "r2", 0)
 	vm := visitor.NewManager()
 	svr.rc.VisitorManager = vm
-	typ := []string{"tcp", "sudp", "stcp"}[zzverif.Choice("type", 3)]
+	svr.rc.NatHoleController, _ = nathole.NewController(time.Hour)
+	typ := []string{"tcp", "sudp", "stcp", "xtcp", "tcp-group"}[zzverif.Choice("type", 5)]
+	if typ == "xtcp" || typ == "tcp-group" {
+		c12RaceOther(svr, c1, c2, typ)
+		return
+	}
 	var e2 error
 	done2 := false
 	go func() {
@@ -69,5 +77,47 @@ func VerifC12NameRace() {
 		} else {
 			zzverif.Reach("C12.race.first-wins")
 		}
+	}
+}
+
+// c12RaceOther: the same race for proxies whose registration holds something by name (xtcp: the
+// nat-hole entry) or joins something shared (a tcp group): the refused registration takes back
+// exactly what it took - the incumbent's entry stays, the group keeps exactly the incumbent.
+func c12RaceOther(svr *Service, c1, c2 *Control, typ string) {
+	mk := func(sk string) *msg.NewProxy {
+		if typ == "xtcp" {
+			return &msg.NewProxy{ProxyName: "p", ProxyType: "xtcp", Sk: sk}
+		}
+		return &msg.NewProxy{ProxyName: "p", ProxyType: "tcp", RemotePort: 1000, Group: "g", GroupKey: "k"}
+	}
+	var e2 error
+	done2 := false
+	go func() {
+		_, e2 = c2.RegisterProxy(mk("k2"))
+		done2 = true
+	}()
+	_, e1 := c1.RegisterProxy(mk("k1"))
+	zzverif.Quiesce()
+	zzverif.Assert(done2 && (e1 == nil) != (e2 == nil), "C12.race.exactly-one-registration-wins")
+	if (e1 == nil) == (e2 == nil) {
+		return
+	}
+	winner, winSk := c1, "k1"
+	if e1 != nil {
+		winner, winSk = c2, "k2"
+	}
+	p, ok := svr.pxyManager.GetByName("p")
+	zzverif.Assert(ok && p == zzCtlProxy(winner, "p"), "C12.race.name-belongs-to-the-winner")
+	if typ == "xtcp" {
+		sk, _, there := svr.rc.NatHoleController.ZZAllow("p")
+		zzverif.Assert(there && sk == winSk, "C12.race.refused-registration-leaves-the-incumbent's-nat-hole-entry")
+		zzverif.Assert(svr.rc.NatHoleController.ZZClients() == 1, "C12.race.one-nat-hole-entry-for-the-name")
+		zzverif.Reach("C12.race.xtcp")
+	} else {
+		zzverif.Assert(svr.rc.TCPGroupCtl.ZZMembers("g") == 1, "C13.race.refused-registration-is-not-left-in-the-group")
+		_ = winner.CloseProxy(&msg.CloseProxy{ProxyName: "p"})
+		zzverif.Assert(svr.rc.TCPGroupCtl.ZZMembers("g") == -1, "C13.race.group-disappears-with-its-only-accepted-member")
+		zzverif.Assert(svr.rc.TCPPortManager.ZZIsFree(1000), "C13.race.group-port-released")
+		zzverif.Reach("C12.race.group")
 	}
 }
